@@ -614,13 +614,14 @@ CONFIG = {
     "C08": dict(
         modules=["Mdns.Props.C08"],
         model_files="Mdns/Model/Compare.lean, Mdns/Model/Names.lean",
-        nontrivial=_c08_nontrivial,
-        extra_evidence=_c08_extra,
+        nontrivial=lambda r: (_sim_nontrivial(r) if r["op"].startswith("sim") else _c08_nontrivial(r)),
+        extra_evidence=lambda recs: dict(_c08_extra([r for r in recs if not r["op"].startswith("sim")]),
+                                         duels=_sim_extra([r for r in recs if r["op"].startswith("sim")])),
         partial=[
-            "component level only: the comparison, the tiebreak decision, the renaming functions and the name checks",
-            "not yet covered (daemon level): detection of a conflicting response while probing and after announcing",
-            "not yet covered (daemon level): the renamed service is probed again, announced, reported as NameChange and answered under the new name only (names_consistent, conflict_contract)",
-            "not yet covered (daemon level): restart of probing one second after a lost tiebreak (timer), two_daemons_converge",
+            "theorems are about the component level: the comparison, the tiebreak decision, the renaming functions and the name checks",
+            "daemon level, one daemon against injected conflicts (rename, probing again, announcement, NameChange): inside the responder model, exact correspondence under C07 / C06",
+            "daemon level, two or three daemons (`sim C08` duels): no model - decided by the monitor Mdns/Driver/MonDuel.lean on real traces (exactly one holder, "
+            "everybody announced, no shared instance / host name, renames as the proved functions say, new names used afterwards); known findings D37-D39",
             "clause 'the new name is still encodable': full statement false of the code (D13, D15, D15b are known findings); proved: rename_keeps_name_encodable_partial",
         ],
         rule="exhaustive: rec-compare on all ordered pairs of a 46-record alphabet (every RDATA kind, neighbouring values, both "
